@@ -249,6 +249,46 @@ pub fn pt_fe<F: PrimeField>(rng: &mut impl RngCore) -> F {
     F::rand(rng)
 }
 
+/// When set, every scheme's configuration generator returns a LARGE configuration (polynomials with
+/// more than a thousand coefficients): size thresholds inside the library (blocked conversions, chunked
+/// sums, matrix shapes) lie far above the small scenarios that make up the bulk of the workloads.
+pub static LARGE: std::sync::atomic::AtomicBool = std::sync::atomic::AtomicBool::new(false);
+
+pub fn is_large() -> bool {
+    LARGE.load(std::sync::atomic::Ordering::Relaxed)
+}
+
+pub fn set_large(on: bool) {
+    LARGE.store(on, std::sync::atomic::Ordering::Relaxed);
+}
+
+pub fn large_cfg(kind: Kind, bounds: bool, rng: &mut impl RngCore, thorough: bool) -> Option<Cfg> {
+    if !LARGE.load(std::sync::atomic::Ordering::Relaxed) {
+        return None;
+    }
+    Some(match kind {
+        Kind::Univariate => {
+            let max_degree = match rng.next_u32() % 4 {
+                0 => [1023usize, 1024, 1025, 2047, 2048][(rng.next_u32() % 5) as usize],
+                _ => range(rng, 1023, if thorough { 4200 } else { 2100 }),
+            };
+            let supported_degree = if rng.next_u32() % 2 == 0 { max_degree } else { range(rng, 1023.min(max_degree), max_degree) };
+            let enforced = if bounds {
+                match rng.next_u32() % 3 {
+                    0 => None,
+                    1 => Some(vec![supported_degree]),
+                    _ => Some(vec![range(rng, 1, supported_degree), supported_degree, range(rng, 1000.min(supported_degree), supported_degree)]),
+                }
+            } else {
+                None
+            };
+            Cfg { max_degree, num_vars: None, supported_degree, supported_hiding: range(rng, 1, 3), enforced }
+        }
+        Kind::Multivariate => Cfg { max_degree: 11, num_vars: Some(4), supported_degree: 11, supported_hiding: 1, enforced: None },
+        Kind::Multilinear => Cfg { max_degree: 1, num_vars: Some(if rng.next_u32() % 2 == 0 { 10 } else { 12 }), supported_degree: 1, supported_hiding: 1, enforced: None },
+    })
+}
+
 fn uni_cfg(rng: &mut impl RngCore, with_bounds: bool, bounds_le_supported: bool, max_cap: usize) -> Cfg {
     let max_degree = skewed(rng, 1, max_cap);
     let supported_degree = if rng.next_u32() % 3 == 0 { max_degree } else { skewed(rng, 1, max_degree) };
@@ -321,6 +361,9 @@ where
     const HIDING: bool = true;
     const WEIGHT: u64 = 2;
     fn gen_cfg(rng: &mut impl RngCore, _t: bool) -> Cfg {
+        if let Some(c) = large_cfg(Self::KIND, Self::BOUNDS, rng, _t) {
+            return c;
+        }
         // Marlin admits enforced bounds in (supported, max]
         uni_cfg(rng, true, false, 64)
     }
@@ -354,6 +397,9 @@ where
     const HIDING: bool = true;
     const WEIGHT: u64 = 3;
     fn gen_cfg(rng: &mut impl RngCore, _t: bool) -> Cfg {
+        if let Some(c) = large_cfg(Self::KIND, Self::BOUNDS, rng, _t) {
+            return c;
+        }
         uni_cfg(rng, true, true, 64)
     }
     fn gen_poly(_cfg: &Cfg, shape: Shape, deg: usize, rng: &mut impl RngCore) -> Self::P {
@@ -382,6 +428,9 @@ impl Scheme for IpaS {
     const BOUNDS: bool = true;
     const HIDING: bool = true;
     fn gen_cfg(rng: &mut impl RngCore, _t: bool) -> Cfg {
+        if let Some(c) = large_cfg(Self::KIND, Self::BOUNDS, rng, _t) {
+            return c;
+        }
         let mut c = uni_cfg(rng, true, true, 64);
         // IPA ignores the enforced list and hiding support; keep them for the call but they are not binding
         c.supported_hiding = c.supported_hiding.max(1);
@@ -506,6 +555,9 @@ where
     const HIDING: bool = true;
     const WEIGHT: u64 = 4;
     fn gen_cfg(rng: &mut impl RngCore, _t: bool) -> Cfg {
+        if let Some(c) = large_cfg(Self::KIND, Self::BOUNDS, rng, _t) {
+            return c;
+        }
         let nv = range(rng, 1, 5);
         let cap = match nv {
             1 => 8,
@@ -582,6 +634,9 @@ impl Scheme for HyraxS {
     const HIDING: bool = false;
     const ALWAYS_RNG: bool = true;
     fn gen_cfg(rng: &mut impl RngCore, thorough: bool) -> Cfg {
+        if let Some(c) = large_cfg(Self::KIND, Self::BOUNDS, rng, thorough) {
+            return c;
+        }
         let nv = 2 * range(rng, 0, if thorough { 4 } else { 3 });
         Cfg { max_degree: 1, num_vars: Some(nv), supported_degree: 1, supported_hiding: 1, enforced: None }
     }
@@ -692,6 +747,9 @@ impl Scheme for UniLigeroS {
     const BOUNDS: bool = false;
     const HIDING: bool = false;
     fn gen_cfg(rng: &mut impl RngCore, thorough: bool) -> Cfg {
+        if let Some(c) = large_cfg(Self::KIND, Self::BOUNDS, rng, thorough) {
+            return c;
+        }
         let cap = if thorough { 600 } else { 200 };
         let d = match rng.next_u32() % 4 {
             0 => skewed(rng, 1, 64),
@@ -723,6 +781,9 @@ impl Scheme for MlLigeroS {
     const BOUNDS: bool = false;
     const HIDING: bool = false;
     fn gen_cfg(rng: &mut impl RngCore, thorough: bool) -> Cfg {
+        if let Some(c) = large_cfg(Self::KIND, Self::BOUNDS, rng, thorough) {
+            return c;
+        }
         let nv = range(rng, 1, if thorough { 9 } else { 7 });
         Cfg { max_degree: 1, num_vars: Some(nv), supported_degree: 1, supported_hiding: 0, enforced: None }
     }
@@ -751,6 +812,9 @@ impl Scheme for BrakedownS {
     const HIDING: bool = false;
     const WEIGHT: u64 = 2;
     fn gen_cfg(rng: &mut impl RngCore, thorough: bool) -> Cfg {
+        if let Some(c) = large_cfg(Self::KIND, Self::BOUNDS, rng, thorough) {
+            return c;
+        }
         let nv = range(rng, 1, if thorough { 9 } else { 7 });
         Cfg { max_degree: 1, num_vars: Some(nv), supported_degree: 1, supported_hiding: 0, enforced: None }
     }
